@@ -201,7 +201,7 @@ func c04Node(rng *rand.Rand, depth int) *C04Node {
 func init() {
 	core.Register(&core.Prop{
 		ID: "C04",
-		Rule: "(a0) chains of 8..130 objects through a pointer, a slice and a map with dotted keys, valid except the last object; top-level collections of non-structs; (a) random acyclic object graphs of a recursive family of named types (depth 0-4 quick, 0-5 thorough; embedded structs marked and unmarked; every container form: *T, **T, []T, []*T, [2]T, [2]*T, map[string]T, map[int]*T, maps keyed by uint64, float64 (NaN) and types with a String method; each node independently nil / zero / populated; nil elements; decoy sub-objects on unmarked, unexported and time.Time fields that would fail if visited) through T, *T, **T, []T, []*T, [n]T, map[string]T and map[int]*T top-level inputs; " +
+		Rule: "(a0) chains of 8..130 objects through a pointer, a slice and a map with dotted keys, valid except the last object; slices of 9..130 objects with the one violation at index 0 / 9 / 10 / 11 / 99 / 100 / 101 (field, top-level, top-level pointers); top-level collections of non-structs; (a) random acyclic object graphs of a recursive family of named types (depth 0-4 quick, 0-5 thorough; embedded structs marked and unmarked; every container form: *T, **T, []T, []*T, [2]T, [2]*T, map[string]T, map[int]*T, maps keyed by uint64, float64 (NaN) and types with a String method; each node independently nil / zero / populated; nil elements; decoy sub-objects on unmarked, unexported and time.Time fields that would fail if visited) through T, *T, **T, []T, []*T, [n]T, map[string]T and map[int]*T top-level inputs; " +
 			"(b) struct types synthesised with reflect.StructOf, nesting depth <= 4, struct-valued fields independently tagged required / exist / both / neither. The (path, rule-instance) pairs of the returned error must equal the reference validator's recursive descent. distinct = distinct (type, value) rendering; non-trivial = at least one clause expected below the top level or a decoy present",
 		Shards: func(t core.Tier) int { return 16 },
 		Run:    runC04,
@@ -274,6 +274,9 @@ func runC04(c *core.Ctx) {
 	if c.Shard == 1%c.Of {
 		c04DeepChains(res)
 	}
+	if c.Shard == 2%c.Of {
+		c04Wide(res)
+	}
 
 	// (b) synthesised types, deeper than C02's
 	seq := 0
@@ -322,6 +325,37 @@ func c04Chain(n int, how int) *C04Chain {
 		cur = nx
 	}
 	return head
+}
+
+// c04Wide: collections of 9..130 elements with the one violation at a chosen index (indexes with
+// one, two and three digits; the path names the element by its decimal index).
+func c04Wide(res *core.Result) {
+	i := 0
+	for _, n := range []int{9, 10, 11, 12, 20, 21, 99, 100, 101, 111, 130} {
+		for _, bad := range []int{0, 9, 10, 11, 19, 20, 99, 100, 101, 110} {
+			if bad >= n {
+				continue
+			}
+			mk := func() []C04Chain {
+				l := make([]C04Chain, n)
+				for k := range l {
+					l[k] = C04Chain{V: 1, M: map[string]*C04Chain{"ok": nil}}
+				}
+				l[bad].V = -5
+				return l
+			}
+			res.Count("wide_collection_cases")
+			c04Case(res, "wide|field", &C04Chain{V: 1, M: map[string]*C04Chain{"ok": nil}, L: mk()}, 3000+i)
+			c04Case(res, "wide|top", mk(), 4000+i)
+			ps := []*C04Chain{}
+			for _, x := range mk() {
+				x := x
+				ps = append(ps, &x)
+			}
+			c04Case(res, "wide|top-ptr", ps, 5000+i)
+			i++
+		}
+	}
 }
 
 func c04DeepChains(res *core.Result) {
